@@ -253,6 +253,23 @@ struct Runner {
         x.m.push_front(v);
         if (r != &x.b->front() || E::val(*r) != v) fail("C04", "model-mismatch", op, "push_front did not return a reference to the inserted element");
     }
+    // the argument refers to an element of the buffer itself (as std containers must tolerate): the value has to be
+    // read before the slot it may live in is overwritten or relocated
+    void pushAlias(int i, bool front) {
+        Slot &x = s[i];
+        size_t k = rng.chance(500) ? (front ? x.m.size() - 1 : 0) : rng.below(x.m.size());   // biased to the element that an overwrite discards
+        int64_t v = x.m[k];
+        bool full = x.m.size() == x.cap;
+        note(x, full ? (front ? "push_front-alias-overwrite" : "push_back-alias-overwrite") : (front ? "push_front-alias" : "push_back-alias"));
+        log(std::string(front ? "pfA#" : "pbA#") + std::to_string(i) + "[" + std::to_string(k) + "]");
+        unsigned how = (unsigned) rng.below(3);
+        T *r;
+        if (front) r = how == 0 ? &x.b->push_front((*x.b)[k]) : how == 1 ? &x.b->emplace_front((*x.b)[k]) : &x.b->push_front(*(x.b->begin() + (std::ptrdiff_t) k));
+        else r = how == 0 ? &x.b->push_back((*x.b)[k]) : how == 1 ? &x.b->emplace_back((*x.b)[k]) : &x.b->push_back(*(x.b->begin() + (std::ptrdiff_t) k));
+        if (front) { if (full) x.m.pop_back(); x.m.push_front(v); }
+        else { if (full) x.m.pop_front(); x.m.push_back(v); }
+        if (E::val(*r) != v) fail("C04", "model-mismatch", op, "pushing an element of the buffer itself inserted " + std::to_string(E::val(*r)) + " instead of " + std::to_string(v));
+    }
     void popBack(int i) {
         Slot &x = s[i];
         note(x, "pop_back");
@@ -394,6 +411,7 @@ struct Runner {
             auto in = [&](unsigned w) { acc += w; return r < acc; };
             if (in(190)) { if ((i = pickValid(false, true)) >= 0) pushBack(i, rng.chance(400)); }
             else if (in(150)) { if ((i = pickValid(false, true)) >= 0) pushFront(i, rng.chance(400)); }
+            else if (in(45)) { if ((i = pickValid(true, true)) >= 0) pushAlias(i, rng.chance(500)); }
             else if (in(90)) { if ((i = pickValid(true)) >= 0) popBack(i); }
             else if (in(90)) { if ((i = pickValid(true)) >= 0) popFront(i); }
             else if (in(50)) { if ((i = pickValid(true)) >= 0) writeIndex(i); }
